@@ -445,7 +445,7 @@ int main() {
     while (std::getline(std::cin, line)) {
         auto w = vh::split(line);
         if (w.empty() || w[0] != "case") continue;
-        alarm(w.size() > 2 && w[2] == "thr" ? 60 : 10);
+        alarm(w.size() > 2 && w[2] == "thr" ? 12 : 6);
         std::cout << "case " << w[1] << "\n";
         const std::string kind = w.size() > 2 ? w[2] : "";
         std::size_t mx = w.size() > 3 ? (std::size_t)atoll(w[3].c_str()) : 0;
